@@ -54,6 +54,13 @@ func judgeBatch(cs *BatchCase, o *BatchObs) []scen.Finding {
 		wantAtt[i] = minInt(s.K, cs.Budget)
 		failed[i] = s.K > cs.Budget
 	}
+	if cs.ErrResult && cs.ExecStyle == "result" {
+		// a failing attempt hands back (NewErrorResult(e), nil): for the framework that is a success that carries an
+		// error state — one attempt, no retry, no fallback, and the slot is an error result with attempt 1's error
+		for i := 0; i < n; i++ {
+			wantAtt[i], failed[i] = 1, false
+		}
+	}
 	finalFail := func(i int) bool { // item's processing ends in an error
 		if !failed[i] {
 			return false
@@ -164,7 +171,10 @@ func judgeBatch(cs *BatchCase, o *BatchObs) []scen.Finding {
 				s := o.Slots[i]
 				switch {
 				case !failed[i]:
-					if !ownSuccess(cs, s, i) || (!cs.Items[i].Nil && s.ValAtt != cs.Items[i].K) {
+					if cs.ErrResult && cs.ExecStyle == "result" && cs.Items[i].K > 1 && !s.IsError {
+						add("C06", "slot-error-state-lost:"+cc, "item %d: exec handed back an error Result (with a nil error); result %d reached post without the error state: %+v", i, i, s)
+					}
+					if !ownSuccess(cs, s, i) || (!cs.Items[i].Nil && !s.IsError && s.ValAtt != cs.Items[i].K) {
 						if !(s.ValOf >= 0 && s.ValOf != i) { // foreign values are C06's
 							add("C07", "slot-value:"+cc, "item %d succeeded at attempt %d but its slot is %+v", i, cs.Items[i].K, s)
 						}
@@ -321,7 +331,7 @@ func judgeBatch(cs *BatchCase, o *BatchObs) []scen.Finding {
 	}
 	// ---------------------------------------------------------------- C11: cancellation
 	if cancelled && !cs.Lean {
-		pre := cs.Cancel.Kind == "pre-cancel" || cs.Cancel.Kind == "pre-deadline"
+		pre := cs.Cancel.Kind == "pre-cancel" || cs.Cancel.Kind == "pre-deadline" || cs.Cancel.InPrep
 		if !o.ErrNil && !o.ErrIsCtx {
 			add("C11", "error-not-ctx", "cancelled batch returned error %q, which does not match the context's error", o.ErrText)
 		}
@@ -333,7 +343,7 @@ func judgeBatch(cs *BatchCase, o *BatchObs) []scen.Finding {
 			sc = -1
 			for _, e := range o.Events {
 				if e.Kind == "exec-start" {
-					add("C11", "exec-after-pre-cancel:"+cc, "context was done before the run, yet item %d attempt %d was executed", e.Item, e.Attempt)
+					add("C11", "exec-after-pre-cancel:"+cc, "context was done before the first item could start (cancelled before the run or inside the batch's prep), yet item %d attempt %d was executed", e.Item, e.Attempt)
 					break
 				}
 			}
@@ -368,6 +378,9 @@ func judgeBatch(cs *BatchCase, o *BatchObs) []scen.Finding {
 
 // ownSuccess reports whether slot s is the successful outcome item i's own execution produced.
 func ownSuccess(cs *BatchCase, s Slot, i int) bool {
+	if cs.ErrResult && cs.ExecStyle == "result" && i < len(cs.Items) && cs.Items[i].K > 1 {
+		return s.IsError && s.ErrOf == fmt.Sprintf("%d.1", i) // the error Result the first attempt returned
+	}
 	if s.IsError || s.ValFB {
 		return false
 	}
